@@ -672,8 +672,17 @@ func upClasses(c upCfg, o upOutcome) []string {
 	return cl
 }
 
-func TestC32(t *testing.T) {
-	st := pbt.NewStats("TestC32")
+func TestC32(t *testing.T) { testC32(t, "TestC32") }
+
+// TestC32Parallel is the same property run with several Ps (the driver sets
+// GOMAXPROCS=4 for it, 1 for TestC32): the uploader's reader and workers then
+// really overlap, and so do buffer-pool operations, which a single P
+// serialises. Time is still the bubble's; the oracle does not depend on the
+// schedule.
+func TestC32Parallel(t *testing.T) { testC32(t, "TestC32Parallel") }
+
+func testC32(t *testing.T, name string) {
+	st := pbt.NewStats(name)
 	defer st.Flush()
 	skipExact := pbt.Known("C32", sigTotalPartsExact)
 	rapid.Check(t, func(t *rapid.T) {
